@@ -898,7 +898,15 @@ impl World for RcDomWorld {
                 Err(_) => class == "panic",
             }
         };
-        emit(&greedy_min(c, &candidates, &mut fails, budget))
+        let mut m = greedy_min(c, &candidates, &mut fails, budget);
+        // no-op entries never create a handle, so dropping them leaves every later index unchanged
+        if let RCase::Direct { ops } = &m {
+            let compact = RCase::Direct { ops: ops.iter().filter(|o| o.kind != D_NOP).cloned().collect() };
+            if fails(&compact) {
+                m = compact;
+            }
+        }
+        emit(&m)
     }
     fn rule(&self) -> String {
         "case = (a) recorded history: every TreeSink call of a real HTML or XML parse of a generated input (customizable-select skeletons spliced in) forwarded to both RcDom and the abstract DOM model by a tee sink, or (b) direct history: 4..90 seeded contract-valid TreeSink calls (create_*, append node/text, append_before_sibling with text merge / node from the same or another parent, append_based_on_parent_node, remove_from_parent, reparent_children, add_attrs_if_missing with overlapping names, template contents, option mirroring); after every mutating call: structural equality, parent links of every node ever created, serializer callbacks vs. model preorder walk; non-trivial = input longer than 3 chars / more than 3 operations; distinct = distinct hash of the case".into()
